@@ -298,8 +298,9 @@ def standard_check(spec, argv):
     tb = ['Coq 8.16.1 kernel (coqc); vm_compute used, native_compute not used',
           'axioms per Print Assumptions: ' + ('none (all theorems closed under the global context)' if rep['assumptions'] and all(v.startswith('Closed') for v in rep['assumptions'].values()) else json.dumps(rep['assumptions'])[:1500]),
           'extraction: ExtrOcamlBasic only (Extract Inductive bool/option/unit/list/prod/sumbool/sumor from that library; no Extract Constant), OCaml 4.13.1, generic driver in lib/vlib.py',
-          'translators: lib/vlib.py regen (constants evaluated by the Go compiler in an in-package dump)',
-          'correspondence harness: ' + ', '.join(os.path.relpath(h, vlib.ROOT) for h in spec.harness) + ' injected with go test -overlay, Go toolchain as installed',
+          'translators: lib/vlib.py regen (constants evaluated by the Go compiler in an in-package dump); source pins: gen/srcpin -> Gen/Pin_%s.v (obligation %s_source_pinned)' % (prop, prop),
+          'correspondence harness: ' + ', '.join(os.path.relpath(h, vlib.ROOT) for h in spec.harness) + ' injected with go test -overlay, Go toolchain as installed'
+          + ('; further overlay files (shims): ' + ', '.join(os.path.relpath(v, vlib.ROOT) for v in (spec.overlay() or {}).values()) if spec.overlay() else ''),
           ] + list(spec.assumptions)
     cov = dict(
         obligations=n_obl, discharged=(n_obl if proof_ok else 0),
